@@ -73,6 +73,10 @@ def cast(x, y):
         if isinstance(x, int) and isinstance(y, float):
             raise TypeError("Cannot cast value from float to int")
 
+        # numpy >= 2 converts 0d arrays only: unpack arrays of size 1
+        if isinstance(y, np.ndarray) and y.size == 1:
+            y = y.item()
+
         ycast = type(x)(y)
 
     else:
